@@ -281,3 +281,152 @@ func verifNumDigits(b *BigInt) int64 {
 func verifDigits(b *BigInt) []byte {
 	return []byte(new(big.Int).Abs(b.MathBigInt()).String())
 }
+
+// ---------- Level B (real BigInt representation) primitives ----------
+
+type verifBigSnapT struct {
+	v    *big.Int
+	raw  BigInt
+	heap []big.Word
+}
+
+var verifBigSnaps []verifBigSnapT
+
+// verifBigAny fills b with an arbitrary VALID representation: inline non-negative (_inner nil),
+// inline negative (_inner == negSentinel, words not all zero) or heap-backed with up to
+// maxHeap words (normalised), inline words arbitrary in every case.
+func verifBigAny(name string, b *BigInt, maxHeap int) {
+	kind := verifNondetInt(name+"_kind", 0, 2)
+	b._inline[0] = big.Word(verifNondetBits64(name + "_w0"))
+	b._inline[1] = big.Word(verifNondetBits64(name + "_w1"))
+	switch kind {
+	case 0:
+		b._inner = nil
+	case 1:
+		b._inner = negSentinel
+		verifAssume(b._inline[0] != 0 || b._inline[1] != 0)
+	case 2:
+		n := int(verifNondetInt(name+"_hn", 0, int64(maxHeap)))
+		words := make([]big.Word, n, n+1)
+		for i := range words {
+			words[i] = big.Word(verifNondetBits64(fmt.Sprintf("%s_h%d", name, i)))
+		}
+		if n > 0 {
+			verifAssume(words[n-1] != 0)
+		}
+		h := new(big.Int).SetBits(words)
+		if n > 0 && verifNondetBool(name+"_hneg") {
+			h.Neg(h)
+		}
+		b._inner = h
+	}
+}
+
+func verifBigSnap(b *BigInt) int {
+	raw, heap := verifSnapBig(b)
+	verifBigSnaps = append(verifBigSnaps, verifBigSnapT{v: b.MathBigInt(), raw: raw, heap: heap})
+	return len(verifBigSnaps) - 1
+}
+
+func verifSnapVal(i int) *big.Int {
+	if i < 0 {
+		return new(big.Int)
+	}
+	return verifBigSnaps[i].v
+}
+
+// verifBigIs: *z == op(snapshot sx, snapshot sy) with math/big's semantics.
+func verifBigIs(z *BigInt, op string, sx, sy int) bool {
+	x, y := verifSnapVal(sx), verifSnapVal(sy)
+	w := new(big.Int)
+	switch op {
+	case "set":
+		w.Set(x)
+	case "abs":
+		w.Abs(x)
+	case "neg":
+		w.Neg(x)
+	case "add":
+		w.Add(x, y)
+	case "sub":
+		w.Sub(x, y)
+	case "mul":
+		w.Mul(x, y)
+	case "quo":
+		w.Quo(x, y)
+	case "rem":
+		w.Rem(x, y)
+	case "div":
+		w.Div(x, y)
+	case "mod":
+		w.Mod(x, y)
+	case "and":
+		w.And(x, y)
+	case "or":
+		w.Or(x, y)
+	case "xor":
+		w.Xor(x, y)
+	case "andnot":
+		w.AndNot(x, y)
+	case "not":
+		w.Not(x)
+	case "sqrt":
+		w.Sqrt(x)
+	default:
+		panic("verifBigIs: unknown op " + op)
+	}
+	return z.MathBigInt().Cmp(w) == 0
+}
+
+// verifBigInv is the representation invariant; its negSentinel clause is "zero is never negative".
+func verifBigInv(z *BigInt) bool {
+	switch {
+	case z._inner == nil:
+		return true
+	case z._inner == negSentinel:
+		return z._inline[0] != 0 || z._inline[1] != 0
+	}
+	bits := z._inner.Bits()
+	if len(bits) == 0 {
+		return z._inner.Sign() == 0
+	}
+	return bits[len(bits)-1] != 0
+}
+
+func verifBigUnchanged(x *BigInt, sx int) bool {
+	s := verifBigSnaps[sx]
+	return verifSameBig(x, s.raw, s.heap)
+}
+
+func verifRefScalar(what string, sx, sy int) int64 {
+	x, y := verifSnapVal(sx), verifSnapVal(sy)
+	b2i := func(b bool) int64 {
+		if b {
+			return 1
+		}
+		return 0
+	}
+	switch what {
+	case "sign":
+		return int64(x.Sign())
+	case "cmp":
+		return int64(x.Cmp(y))
+	case "cmpabs":
+		return int64(x.CmpAbs(y))
+	case "iszero":
+		return b2i(x.Sign() == 0)
+	case "isuint64":
+		return b2i(x.IsUint64())
+	case "isint64":
+		return b2i(x.IsInt64())
+	case "low64":
+		return int64(x.Uint64())
+	case "int64":
+		return x.Int64()
+	case "bit0":
+		return int64(x.Bit(0))
+	case "bitlen":
+		return int64(x.BitLen())
+	}
+	panic("verifRefScalar: " + what)
+}
